@@ -3238,12 +3238,10 @@ def gen_all(repo):
     tr = Translator(repo)     # shared: later files refer to the signatures of functions translated for earlier ones
     for name, spec in FILES:
         try:
-            if spec.get("handler_mode"):      # phase 4e: generic butterfly network + NTTTables wrappers (tools/rs2lean_dwt.py)
+            if spec.get("app_mode"): import rs2lean_app; res[name] = rs2lean_app.generate(sys.modules[__name__], tr, spec)      # phase 4h: application layer (tools/rs2lean_app.py)
+            elif spec.get("handler_mode"):      # phase 4e: generic butterfly network + NTTTables wrappers (tools/rs2lean_dwt.py)
                 import rs2lean_dwt
                 res[name] = rs2lean_dwt.generate(sys.modules[__name__], tr, spec)
-            elif spec.get("app_mode"):        # phase 4h: application-layer index arithmetic (tools/rs2lean_app.py)
-                import rs2lean_app
-                res[name] = rs2lean_app.generate(sys.modules[__name__], tr, spec)
             else: res[name] = ladder_file(tr, spec) if spec.get("ladder") else tr.run_file(spec)
         except (Unsupported, SystemExit) as ex: res[name] = GenFailed(str(ex))
         except Exception as ex: res[name] = GenFailed("translator error: %s: %s" % (type(ex).__name__, ex))
@@ -3570,6 +3568,9 @@ FILES += [
         {"file": UT, "fn": "inverse_ntt_negacyclic_harvey", "impl": "NTTTables", "model": "intt"},
     ]}),
 ]
+# Gen/AppPrelude.lean, AppFns.lean, AppBatchFns.lean, AppLweFns.lean (phase 4h, app mode - tools/rs2lean_app.py, tables in tools/rs2lean_app_table.py)
+import rs2lean_app_table
+FILES += rs2lean_app_table.FILES
 
 
 # ------------------------------------------------------------------------------------------------------------------------------------
@@ -3738,11 +3739,7 @@ TABLE_EVALCT += [
      "panic_escape": True},
 ]
 for _n, _sp in FILES:
-    if _n == "EvalFns.lean" and "Heathcliff.Model.Scheme" not in _sp["imports"]: _sp["imports"] = _sp["imports"] + ["Heathcliff.Model.Scheme"]
-# Gen/AppFns.lean (phase 4h, app mode - tools/rs2lean_app.py): block-size searches and index lists of the application layer
-import rs2lean_app_table
-FILES += rs2lean_app_table.FILES
-# ------------------------------------------------------------------------------------------------------------------------------------
+    if _n == "EvalFns.lean" and "Heathcliff.Model.Scheme" not in _sp["imports"]: _sp["imports"] = _sp["imports"] + ["Heathcliff.Model.Scheme"]# ------------------------------------------------------------------------------------------------------------------------------------
 
 if __name__ == "__main__":
     res = gen_all(sys.argv[1])
